@@ -249,6 +249,18 @@ def direct_merge_shape(prog, an, rep):
         return
     loop = loops[0]
     lv = loop.target.id if isinstance(loop.target, ast.Name) else None
+    paired = None     # for prev, w in zip([first] + rest, rest)
+    if isinstance(loop.target, ast.Tuple) and len(loop.target.elts) == 2 \
+            and all(isinstance(e, ast.Name) for e in loop.target.elts) and \
+            isinstance(loop.iter, ast.Call) and \
+            src(loop.iter.func) == 'zip' and len(loop.iter.args) == 2:
+        paired = loop.target.elts[0].id
+        lv = loop.target.elts[1].id
+    if lv is None:
+        rep.violation(R, f.qname + ': merge loop', f.where(loop),
+                      'the merge loop does not range over the integration '
+                      'branches one by one: %s' % src(loop.target))
+        return
     # what the loop ranges over: the rest of wbranches
     unpack = [st for st in walk_local(f.node, include_root=False)
               if isinstance(st, ast.Assign) and
@@ -260,7 +272,14 @@ def direct_merge_shape(prog, an, rep):
         if len(elts) == 2 and isinstance(elts[0], ast.Name) and \
                 isinstance(elts[1], ast.Starred):
             first, rest = elts[0].id, elts[1].value.id
-    rep.check(first is not None and src(loop.iter) == rest, R,
+    ok_iter = first is not None and src(loop.iter) == rest
+    if paired is not None and first is not None:
+        # every branch paired with its predecessor: [first] + rest, rest
+        a0, a1 = (' '.join(src(a).split()) for a in loop.iter.args)
+        ok_iter = a1 == rest and a0 in ('[%s] + %s' % (first, rest),
+                                        '[%s, *%s]' % (first, rest),
+                                        f.params[1])
+    rep.check(ok_iter, R,
               f.qname + ': first target, then every other target in order',
               f.where(loop), 'the merge loop iterates %s (expected the '
               'remainder of wbranches after the first)' % src(loop.iter))
@@ -303,7 +322,12 @@ def direct_merge_shape(prog, an, rep):
               'one of them does not chain the cascade' %
               sorted({s_ for _, (d_, a_, b_) in calls for s_ in (a_, b_)
                       if s_.endswith('.dst_branch')}))
-    if prev and prev != '?':
+    if paired is not None:
+        rep.evaluated()
+        rep.check(prev == paired, R, f.qname + ': the previous target is '
+                  'the branch paired with this one', f.where(loop),
+                  'merges use %s, the loop pairs with %s' % (prev, paired))
+    elif prev and prev != '?':
         binds = stores_to(f, prev)
         init = [v for st, v in binds if before(f, st, loop)]
         inloop = [(st, v) for st, v in binds
